@@ -68,6 +68,7 @@ class ParallelAction : public AssembleAction {
     void pauseAllActions();
 
     void onChildFinished(int index, bool is_succ);
+    bool tryFinish();   //!< 根据已结束的子动作判断自己是否该结束了
     void onChildBlocked(int index, const Reason &why, const Trace &trace);
 
   private:
